@@ -342,6 +342,17 @@ def driver_case(case):
            ({"pinned": True} if case.get("pinned") else {})
 
 
+def call_driver(ctx, lines):
+    """ctx.driver with a few retries: the binary is briefly absent while another `lake build` relinks it"""
+    for attempt in range(6):
+        try:
+            return ctx.driver("framing", lines)
+        except Exception as e:   # noqa
+            if "driver binary missing" not in str(e) or attempt == 5:
+                raise
+            time.sleep(3)
+
+
 def run_model(ctx, env, cases):
     """runs all cases through the driver; iterates while the real zlib/pickle decodes a payload the table lacked"""
     results = [None] * len(cases)
@@ -349,7 +360,7 @@ def run_model(ctx, env, cases):
     for _round in range(6):
         if not todo:
             break
-        out = ctx.driver("framing", [json.dumps(driver_case(cases[i]), separators=(",", ":")) for i in todo])
+        out = call_driver(ctx, [json.dumps(driver_case(cases[i]), separators=(",", ":")) for i in todo])
         if len(out) != len(todo):
             raise RuntimeError("driver returned %d lines for %d cases" % (len(out), len(todo)))
         again = []
@@ -483,7 +494,9 @@ def gen_reader_exhaustive(env, rng, n_streams, window):
     """every set of cut points in a window around each frame boundary / length field of short streams"""
     t = env.table
     for _ in range(n_streams):
-        ids = [t.vid(gen_value(rng)) for _ in range(rng.choice([1, 2, 2, 3]))]
+        ids = []
+        while not ids or sum(len(t.frame(i)) for i in ids) > 160:
+            ids = [t.vid(gen_value(rng)) for _ in range(rng.choice([1, 2, 2, 3]))]
         stream = b"".join(t.frame(i) for i in ids)
         bounds, pos = [0], 0
         for i in ids[:-1]:
@@ -514,6 +527,8 @@ def gen_reader_random(env, rng, n):
         ids = [t.vid(gen_value(rng, big and rng.random() < 0.5)) for _ in range(rng.randrange(0, 7))]
         stream = b"".join(t.frame(i) for i in ids)
         recvbuf = rng.choice([2 ** 13, 2 ** 13, 64, 5, 4096])
+        if len(stream) > 3000:
+            recvbuf = rng.choice([2 ** 13, 4096])
         expect = {"mon": "valid", "sent": ids}
         extra = None
         if rng.random() < 0.3:
@@ -608,6 +623,8 @@ def gen_corrupt(env, rng, n, hows=None):
         cls, info = classify_bad(t, stream, pos)
         recvbuf = rng.choice([2 ** 13, 64, 7])
         style = rng.choice([None, "tiny", "big"])
+        if len(stream) > 3000:      # keep the number of recv calls (model: list appends) bounded
+            recvbuf, style = 2 ** 13, rng.choice(["big", "exact", "mixed"])
         c = reader_case(env, "corrupt-" + how, ids, stream, chunkings_random(rng, stream, recvbuf, style),
                         {"mon": "corrupt", "sent": ids, "bad": bad_i, "class": cls, "how": how,
                          "then": info[0] if info else None})
@@ -963,22 +980,34 @@ def nontrivial(case):
 # entry points
 # ------------------------------------------------------------------------------------------------
 def all_cases(ctx, env):
-    q = ctx.tier == "quick"
+    """generator: corpus, then the systematic enumerators, then the random streams"""
     rng = ctx.rng("tcp_framing")
-    cases = []
     corpus_dir = os.path.join(ctx.verif, "corpus", "framing")
     if os.path.isdir(corpus_dir):
         for fn in sorted(os.listdir(corpus_dir)):
             if fn.endswith(".json"):
-                cases.append(load_public_case(env, json.load(open(os.path.join(corpus_dir, fn)))))
-    cases += gen_directed(env)
-    cases += list(gen_reader_exhaustive(env, rng, ctx.scale(2, 12), ctx.scale(9, 12)))
-    cases += list(gen_reader_random(env, rng, ctx.scale(150, 3000)))
-    cases += list(gen_corrupt(env, rng, ctx.scale(320, 6400)))
-    cases += list(gen_writer(env, rng, ctx.scale(150, 3000), benign=True))
-    cases += list(gen_writer(env, rng, ctx.scale(100, 2000), benign=False))
-    cases += list(gen_mixed(env, rng, ctx.scale(500, 15000)))
-    return cases
+                yield load_public_case(env, json.load(open(os.path.join(corpus_dir, fn))))
+    for c in gen_directed(env):
+        yield c
+    for g in (gen_reader_exhaustive(env, rng, ctx.scale(4, 40), ctx.scale(9, 12)),
+              gen_reader_random(env, rng, ctx.scale(300, 6000)),
+              gen_corrupt(env, rng, ctx.scale(640, 12800)),
+              gen_writer(env, rng, ctx.scale(300, 6000), benign=True),
+              gen_writer(env, rng, ctx.scale(200, 4000), benign=False),
+              gen_mixed(env, rng, ctx.scale(1500, 40000))):
+        for c in g:
+            yield c
+
+
+def batches(it, n):
+    buf = []
+    for x in it:
+        buf.append(x)
+        if len(buf) >= n:
+            yield buf
+            buf = []
+    if buf:
+        yield buf
 
 
 def load_public_case(env, pc):
@@ -1018,13 +1047,22 @@ def run(ctx):
     cov = {}
     res = {"cases": 0, "distinct": 0, "coverage": cov, "samples": [], "disagreements": [], "violations": []}
     with Env(ctx.repo, cov) as env:
-        cases = all_cases(ctx, env)
-        reals = [env.run_real(c) for c in cases]
-        models = run_model(ctx, env, cases)
         seen = set()
         mrng = ctx.rng("tcp_framing/monitor")
         kinds = {}
-        for c, m, r in zip(cases, models, reals):
+        sample_src = []
+
+        def triples():
+            for cases in batches(all_cases(ctx, env), 1000):
+                reals = [env.run_real(c) for c in cases]
+                models = run_model(ctx, env, cases)
+                for c in cases:
+                    if c["kind"] in ("reader-random", "corrupt-neg_exact", "writer-benign") and \
+                            c["kind"] not in [x["kind"] for x in sample_src]:
+                        sample_src.append(c)
+                for t3 in zip(cases, models, reals):
+                    yield t3
+        for c, m, r in triples():
             res["cases"] += 1
             kk = c["kind"] if c["kind"].startswith(("reader", "writer", "mixed")) else c["kind"].split("-")[0]
             kinds[kk] = kinds.get(kk, 0) + 1
@@ -1064,9 +1102,8 @@ def run(ctx):
                             d2[0], small["evs"][d2[0]]["k"] if d2[0] < len(small["evs"]) else "end", c["kind"])})
         res["distinct"] = len(seen)
         cov["kinds"] = kinds
-        for c in cases:
-            if c["kind"] in ("reader-random", "corrupt-neg_exact", "writer-benign") and \
-                    c["kind"] not in [s["kind"] for s in res["samples"]]:
+        for c in sample_src:
+            if True:
                 pc = public_case(env, c)
                 pc["evs"] = pc["evs"][:3]
                 pc.pop("vals", None)
